@@ -110,6 +110,12 @@ static bool scrollrect(TickitTermDriver *ttd, const TickitRect *rect, int downwa
    */
   if(((xd->cap.slrm && rect->lines == 1) || (right == term_cols))
       && downward == 0) {
+    /* DECSLRM needs at least two columns: a right margin at column 1 would be
+     * ignored and the ICH/DCH below would shift the whole line
+     */
+    if(right < term_cols && right < 2)
+      return false;
+
     if(right < term_cols)
       tickit_termdrv_write_strf(ttd, "\e[;%ds", right);
 
